@@ -23,7 +23,7 @@ func SafeCmdExecution(executable string, args []string, timeout time.Duration) (
 	cmd.WaitDelay = 500 * time.Millisecond
 	out, err := cmd.Output()
 
-	if ctx.Err() == context.DeadlineExceeded {
+	if ctx.Err() == context.DeadlineExceeded && err != nil {
 		ui.Warning("Command timed out: %s", executable)
 		return "", err
 	}
